@@ -13,7 +13,7 @@ f = getattr(importlib.import_module('props.' + mod), name)
 from props.sockrules import FLAVOURS
 from props.clirules import CFLAVOURS
 args = []
-if len(sys.argv) > 4:
+if len(sys.argv) > 4 and len(sys.argv[4]) == 2 and sys.argv[4][0] in "sc":
     fl = sys.argv[4]
     args = [FLAVOURS[int(fl[1])] if fl[0] == 's' else CFLAVOURS[int(fl[1])]]
 try:
@@ -26,5 +26,5 @@ for o in A.obligations:
     if o.status == 'violated' and (o.rule, o.key) not in seen:
         seen.add((o.rule, o.key))
         print('VIOLATED', o.rule, o.key, o.what[:100])
-        for l in (o.detail or [])[:int(sys.argv[5]) if len(sys.argv) > 5 else 6]:
+        for l in (o.detail or [])[:int(sys.argv[-1]) if sys.argv[-1].isdigit() else 6]:
             print('     ', l)
